@@ -285,7 +285,7 @@ func (c *concCtx) writerTask(name string, prog []Op, g *Gen, ntx int) {
 			e.Yield("op")
 		}
 		for i := g.Rng.Intn(3); i > 0; i-- {
-			e.Yield("writer:idle")
+			e.Yield("wtask:idle")
 		}
 	}
 }
